@@ -50,7 +50,7 @@ var c03JSON = c03Codec{Pkg: "json", Import: "encoding/json",
 
 func (c *c03Codec) calls(typ string) string {
 	p := c.Pkg
-	return fmt.Sprintf("func Use@(w io.Writer, data []byte) error {\n\tvar v %s\n\tif _, err := %s.Marshal(v); err != nil {\n\t\treturn err\n\t}\n\tif _, err := %s.MarshalIndent(&v, \"\", \" \"); err != nil {\n\t\treturn err\n\t}\n\tif err := %s.NewEncoder(w).Encode(v); err != nil {\n\t\treturn err\n\t}\n\treturn %s.Unmarshal(data, &v)\n}\n", typ, p, p, p, p)
+	return fmt.Sprintf("func Use@(w io.Writer, data []byte) error {\n\tvar v %s\n\tif _, err := %s.Marshal(v); err != nil {\n\t\treturn err\n\t}\n\tif _, err := %s.MarshalIndent(&v, \"\", \" \"); err != nil {\n\t\treturn err\n\t}\n\tif err := %s.NewEncoder(w).Encode(v); err != nil {\n\t\treturn err\n\t}\n\tdefer %s.Marshal(v)\n\tgo %s.NewEncoder(w).Encode(&v)\n\treturn %s.Unmarshal(data, &v)\n}\n", typ, p, p, p, p, p, p)
 }
 
 // conflicts: Outer = [X]? + embedded Inner{B, C} + [Y]?, at least one of X, Y; all fields int;
@@ -209,7 +209,7 @@ func c03Printf(thorough bool) []*c03Snippet {
 			for _, a := range c03PrintfArgs {
 				fmt.Fprintf(&b, "\t_ = fmt.Sprintf(%s, %s)\n", format, a)
 			}
-			fmt.Fprintf(&b, "\tfmt.Printf(%s, i, s)\n\tfmt.Fprintf(w, %s)\n\treturn fmt.Errorf(%s, e)\n}\n", format, format, format)
+			fmt.Fprintf(&b, "\tfmt.Printf(%s, i, s)\n\tfmt.Fprintf(w, %s)\n\tdefer fmt.Printf(%s, a)\n\tgo fmt.Fprintf(w, %s, s, i)\n\treturn fmt.Errorf(%s, e)\n}\n", format, format, format, format, format)
 			out = append(out, c03API(fmt.Sprintf("a/printf-verb/%s.F%d", strconv.Quote(verb), fi), "api-printf", b.String(), "fmt", "io"))
 		}
 	}
@@ -380,6 +380,8 @@ func c03APISnippets(thorough bool) []*c03Snippet {
 	all = append(all, c03Printf(thorough)...)
 	all = append(all, c03ConstArgs(thorough)...)
 	all = append(all, c03ArgRules(thorough)...)
+	all = append(all, c03CallShapes()...)
+	all = append(all, c03PrintfEnum(thorough)...)
 	c03SortBySize(all)
 	return all
 }
